@@ -3,36 +3,54 @@ SRC = 'C01_btree.cpp'
 CN = ['set', 'multiset', 'map', 'multimap']
 PN = {0: 'empty tree', 1: 'two levels (6 ascending keys)', 2: 'leaves at minimum fill after erasures', 3: 'three levels (ascending inserts)', 4: 'descending inserts', 5: 'bulk-loaded at an exact capacity multiple', 6: 'duplicate run spanning leaves'}
 
-def mk(prop, cont, leaf, inner, bins, pre, ops, group, quick, gt=False):
-    name = '%s_l%di%d_%s_p%d_g%d_k%d%s' % (CN[cont], leaf, inner, 'bin' if bins else 'lin', pre, group, ops, '_gt' if gt else '')
+LEVELS = {0: 1, 1: 2, 2: 2, 3: 3, 4: 2, 5: 2, 6: 2}   # tree height reached by each prefix script; recursion bound = re-entries needed, +1 per further symbolic operation (root split), +1 for verify() after a split
+
+OPN = {0: ['insert', 'erase(key)', 'erase_one(key)', 'erase(iterator from lower_bound)'], 1: ['copy-construct', 'assign', 'swap', 'clear', 'bulk_load of a symbolic sorted range', 'copy + insert + compare']}
+
+def mk(prop, cont, leaf, inner, bins, pre, ops, group, quick, gt=False, opk=None, timeout=None):
+    name = '%s_l%di%d_%s_p%d_g%d_k%d%s%s' % (CN[cont], leaf, inner, 'bin' if bins else 'lin', pre, group, ops, '_gt' if gt else '', '' if opk is None else '_o%d' % opk)
     defs = ['CONT=%d' % cont, 'LEAF=%d' % leaf, 'INNER=%d' % inner, 'BINSEARCH=%d' % bins, 'PRE=%d' % pre, 'OPS=%d' % ops, 'GROUP=%d' % group] + (['CMP_GREATER'] if gt else [])
+    if opk is not None: defs.append('OPK=%d' % opk)
     if prop == 'C02': defs.append('VERIFY')
+    opsdesc = ('symbolic operations (%s)' % ' / '.join(OPN[group])) if opk is None else ('operation%s of kind %s with symbolic arguments' % ('s' if ops > 1 else '', OPN[group][opk]))
     return Query(name, SRC, 'h_btree',
-                 'btree_%s, leaf_slots=%d inner_slots=%d, %s in-node search, prefix: %s, then %d symbolic operations (%s), keys 0..31, symbolic probe for find/exists/count/bounds/equal_range%s%s'
-                 % (CN[cont], leaf, inner, 'binary' if bins else 'linear', PN[pre], ops, 'insert / erase(key) / erase_one / erase(iterator)' if group == 0 else 'copy / assign / swap / clear / bulk_load / compare',
+                 'btree_%s, leaf_slots=%d inner_slots=%d, %s in-node search, prefix: %s, then %d %s, keys 0..31, symbolic probe for find/exists/count/bounds/equal_range%s%s'
+                 % (CN[cont], leaf, inner, 'binary' if bins else 'linear', PN[pre], ops, opsdesc,
                     ', comparator >' if gt else '', '; verify() after every step + counting allocator' if prop == 'C02' else ''),
                  defs=defs, link=['tlx/die/core.cpp'] if prop == 'C02' else [], cbmc=['--memory-leak-check'] if prop == 'C02' else [], tiers=('quick', 'thorough') if quick else ('thorough',),
-                 timeout=5400 if quick else 14400, mem_gb=30, objbits=10, unwind=3, max_unwind=64, weight=(pre + 1) * ops, validate=12)
+                 timeout=timeout or (3600 if quick else 10800), mem_gb=30, objbits=10, unwind=3 if opk == 3 and group == 0 else 6, max_unwind=64,
+                 recursion=max(1, LEVELS.get(pre, 2) - 1 + (ops - 1) + (1 if prop == 'C02' else 0)), weight=(pre + 1) * ops + (8 if opk == 3 else 0), validate=12)
 
 def build(prop):
     qs = []
-    # quick: (4,4), set + multiset (+ map for the copy group), k = 1..2
+    # quick: (4,4), one symbolic operation per query with the operation kind enumerated by the spec (each kind is its own SAT query)
+    for cont, pre in ((0, 1), (1, 1), (0, 2), (1, 6)):
+        for opk in (0, 1, 2):
+            qs.append(mk(prop, cont, 4, 4, 0, pre, 1, 0, True, opk=opk))
+    qs.append(mk(prop, 0, 4, 4, 0, 1, 1, 0, True, opk=3))
+    qs.append(mk(prop, 1, 4, 4, 0, 2, 1, 0, True, opk=3))
+    for opk in (0, 1, 2): qs.append(mk(prop, 0, 4, 4, 1, 1, 1, 0, True, opk=opk))          # binary in-node search
+    for opk in (0, 2): qs.append(mk(prop, 3, 4, 4, 0, 6, 1, 0, True, opk=opk))            # multimap, duplicate run
+    for opk in (0, 1, 2, 3, 4, 5): qs.append(mk(prop, 2, 4, 4, 0, 1, 1, 1, True, opk=opk))  # map: whole-tree operations
+    # thorough: containers x capacity pairs x both searches x scripts, one operation kind per query; two symbolic operations for (4,4)
+    for cont in range(4):
+        for pre in (0, 1, 2, 3, 4, 5, 6):
+            for opk in (0, 1, 2, 3): qs.append(mk(prop, cont, 4, 4, 0, pre, 1, 0, False, opk=opk))
+    for cont in (0, 2):
+        for pre in (1, 5):
+            for opk in (0, 1, 2, 3, 4, 5): qs.append(mk(prop, cont, 4, 4, 0, pre, 1, 1, False, opk=opk))
     for cont in (0, 1):
         for pre in (1, 2, 6):
-            qs.append(mk(prop, cont, 4, 4, 0, pre, 2 if pre == 1 else 1, 0, True))
-    qs.append(mk(prop, 2, 4, 4, 0, 1, 1, 1, True))
-    qs.append(mk(prop, 0, 4, 4, 1, 1, 1, 0, True))
-    qs.append(mk(prop, 3, 4, 4, 0, 6, 1, 0, True))
-    # thorough: all containers x capacity pairs x both searches x scripts
-    for cont in range(4):
-        for (l, i_) in ((4, 4), (4, 5), (5, 4), (8, 8)):
-            for bins in (0, 1):
-                for pre in (0, 1, 2, 3, 4, 5, 6):
-                    for group in (0, 1):
-                        k = 2 if (l, i_) == (4, 4) and pre in (1, 2, 6) else 1
-                        qs.append(mk(prop, cont, l, i_, bins, pre, k, group, False))
-    qs.append(mk(prop, 0, 4, 4, 0, 1, 2, 0, False, gt=True))
-    qs.append(mk(prop, 0, 4, 4, 0, 1, 3, 0, False))
+            for opk in (0, 1, 2, 3): qs.append(mk(prop, cont, 4, 4, 1, pre, 1, 0, False, opk=opk))
+        for (l, i_) in ((4, 5), (5, 4)):
+            for pre in (1, 2):
+                for opk in (0, 1, 2, 3): qs.append(mk(prop, cont, l, i_, 0, pre, 1, 0, False, opk=opk))
+    for pre in (1, 5):
+        for opk in (0, 1, 2, 3): qs.append(mk(prop, 0, 8, 8, 0, pre, 1, 0, False, opk=opk))
+    for cont in (0, 1):
+        for pre in (1, 2, 6):
+            qs.append(mk(prop, cont, 4, 4, 0, pre, 2, 0, False))
+    for opk in (0, 1, 2): qs.append(mk(prop, 0, 4, 4, 0, 1, 1, 0, False, gt=True, opk=opk))
     seen = set(); out = []
     for q in qs:
         if q.name in seen: continue
@@ -40,7 +58,7 @@ def build(prop):
     return out
 
 def queries(): return build('C01')
-JOBS = {'quick': 2, 'thorough': 2}   # measured: 15-24 GB per query while bounds are tuned
+JOBS = {'quick': 5, 'thorough': 4}   # measured: 2.5-8 GB per query (erase(iterator) queries up to 20 GB)
 ASSUMPTIONS = ['model = sorted array where a new equivalent key goes after the existing ones (std::multiset/multimap order); for multimap only the per-key multiset of values is compared',
                'keys are 8-bit from a universe of 32, comparators std::less / std::greater']
 OUTSIDE = ['more symbolic operations than stated per query, node capacities above 8, allocator variations, key types with non-trivial copy', 'a 4-level tree is only reached by scripts, never by the symbolic suffix']
